@@ -196,6 +196,12 @@ class Writer:
                 f"(in {segment_addresses_str})."
             )
 
+        if data_length % 2 == 1:
+            raise FlipJumpWriteFjmException(
+                f"data-length must be even - an integer number of ops, like the reader requires "
+                f"(got {data_length} in {segment_addresses_str})."
+            )
+
         self._validate_segment_not_overlapping(segment_start, segment_length, data_start, data_length)
 
         if self.version in (FJMVersion.RelativeJumpVersion, FJMVersion.CompressedVersion):
